@@ -434,6 +434,55 @@ func checkC19(w *World, r *Report) {
 		r.Check(okJ, "R19.10", "JSON decodeValue: string case", df.Pos(), "returns the decoded string itself", "the JSON reader rewrites string values before they are validated and stored")
 	})
 
+	r.Rule("R19.11", "numbers are decoded as written: no JSON text is unmarshalled into an untyped value with encoding/json's default number handling (float64 alters every integer above 2^53); a json.Decoder that fills an interface{} has UseNumber set", 1)
+	r.guard("R19.11", func() {
+		sp := w.SSAPkg("data/encoding")
+		n := 0
+		isEmptyIfacePtr := func(t types.Type) bool {
+			p, ok := t.(*types.Pointer)
+			if !ok {
+				return false
+			}
+			it, ok := p.Elem().Underlying().(*types.Interface)
+			return ok && it.NumMethods() == 0
+		}
+		for _, f := range allFuncs(sp) {
+			useNumber := false
+			for _, b := range f.Blocks {
+				for _, in := range b.Instrs {
+					if c, ok := in.(*ssa.Call); ok && c.Call.StaticCallee() != nil && c.Call.StaticCallee().String() == "(*encoding/json.Decoder).UseNumber" {
+						useNumber = true
+					}
+				}
+			}
+			for _, b := range f.Blocks {
+				for _, in := range b.Instrs {
+					c, ok := in.(*ssa.Call)
+					if !ok || c.Call.StaticCallee() == nil {
+						continue
+					}
+					switch c.Call.StaticCallee().String() {
+					case "encoding/json.Unmarshal":
+						target := c.Call.Args[1]
+						if mi, ok := target.(*ssa.MakeInterface); ok && isEmptyIfacePtr(mi.X.Type()) {
+							n++
+							r.Fail("R19.11", funcKey(f)+": json.Unmarshal into interface{}", c.Pos(), "numbers become float64: an int64/uint64 leaf above 2^53 written as a bare number (plain JSON encoding) decodes to a different value or is rejected — the encoding does not round-trip")
+						}
+					case "(*encoding/json.Decoder).Decode":
+						target := c.Call.Args[1]
+						if mi, ok := target.(*ssa.MakeInterface); ok && isEmptyIfacePtr(mi.X.Type()) {
+							n++
+							r.Check(useNumber, "R19.11", funcKey(f)+": Decoder.Decode into interface{}", c.Pos(), "UseNumber is set", "the decoder fills an untyped value without UseNumber: numbers become float64 and large integers are altered")
+						}
+					}
+				}
+			}
+		}
+		if n == 0 {
+			panic(undecided{"no JSON decoding into an untyped value found"})
+		}
+	})
+
 	r.Rule("R19.5", "the JSON writer emits well-formed, faithfully escaped text: every string-like value goes through json.Marshal (no hand-written quoting), and in every arm of the child encoder the '[' / '{' written are closed on every path", 6)
 	r.guard("R19.5", func() {
 		wv := w.Method("data/encoding", "JSONWriter", "writeValue")
